@@ -116,6 +116,14 @@ func init() {
 		{syms: []string{"bytes_of"}, text: `(declare-fun bytes_of (Str) (Array Int Int))
 (assert (forall ((s Str) (k Int)) (! (=> (and (<= 0 k) (< k (str_len s))) (= (select (bytes_of s) k) (str_at s k))) :pattern ((select (bytes_of s) k)))))
 `},
+		{syms: []string{"str_eq"}, text: `(declare-fun str_eq (Str Str) Bool)
+(declare-fun str_diff (Str Str) Int)
+(assert (forall ((s Str) (t Str)) (! (and (= (str_eq s t) (= s t)) (or (= s t) (not (= (str_len s) (str_len t))) (and (<= 0 (str_diff s t)) (< (str_diff s t) (str_len s)) (not (= (str_at s (str_diff s t)) (str_at t (str_diff s t))))))) :pattern ((str_eq s t)))))
+`},
+		{syms: []string{"str_repl1"}, text: `(declare-fun str_repl1 (Str Int Int) Str)
+(assert (forall ((s Str) (a Int) (b Int)) (! (= (str_len (str_repl1 s a b)) (str_len s)) :pattern ((str_repl1 s a b)))))
+(assert (forall ((s Str) (a Int) (b Int) (k Int)) (! (=> (and (<= 0 k) (< k (str_len s))) (= (str_at (str_repl1 s a b) k) (ite (= (str_at s k) a) b (str_at s k)))) :pattern ((str_at (str_repl1 s a b) k)))))
+`},
 		{syms: []string{"str_cat"}, text: `(declare-fun str_cat (Str Str) Str)
 (assert (forall ((a Str) (b Str)) (! (= (str_len (str_cat a b)) (+ (str_len a) (str_len b))) :pattern ((str_cat a b)))))
 (assert (forall ((a Str) (b Str) (k Int)) (! (=> (and (<= 0 k) (< k (+ (str_len a) (str_len b)))) (= (str_at (str_cat a b) k) (ite (< k (str_len a)) (str_at a k) (str_at b (- k (str_len a)))))) :pattern ((str_at (str_cat a b) k)))))
